@@ -54,6 +54,7 @@ func checkC12(ci any, info *CaseInfo) string {
 
 func init() {
 	register(&Property{
+		Enum: enumFoldPoolShapes(func(g *GoCase) any { return g }),
 		ID:   "C12",
 		Rule: "rapid draws a Go type description (all scalar kinds, slices, string maps, pointers depth 0..3, interfaces, nested structs with tags drawn from {none, name, name+omitempty, omitempty, -, omit, inline/squash, padded, illegal combinations}, pool types incl. Folder/IsZeroer/registered folders/embedded/named types, unsupported kinds) materialised with reflect.StructOf, and a value of it (nil/empty/non-empty nillables, interfaces holding generic data, structs, pointers); oracle = independent executable model of the documented tag rules (gomodel.FoldModel) compared at value level; refusal cases must be errors; non-trivial = the type has at least one tag option or the case is a refusal; distinct by case hash",
 		New:  func() any { return &GoCase{} },
